@@ -72,6 +72,24 @@ func (d *arpDriver) realtime(variant int) {
 	}
 	a2 := packet.Addr{MAC: u.HuntMAC("m2"), IP: u.HuntIP(second)}
 	sleepUntil := func(ms int) { time.Sleep(time.Until(t0.Add(time.Duration(ms) * time.Millisecond))) }
+	if variant >= 100 {
+		// "stop all": 2-4 hosts hunted at distinct addresses, all stopped after one second; every loop must end
+		// (and restore its target) within one genuine 6 s cycle of its own -- rt.done carries the delay
+		n := 2 + variant%3
+		addrs := []packet.Addr{}
+		for k := 1; k <= n; k++ {
+			addrs = append(addrs, packet.Addr{MAC: u.HuntMAC("m" + string(rune('0'+k))), IP: u.HuntIP("a" + string(rune('0'+k)))})
+		}
+		for k, a := range addrs {
+			d.h.StartHunt(a)
+			sleepUntil(60 * (k + 1))
+		}
+		sleepUntil(1000)
+		for _, a := range addrs {
+			d.h.StopHunt(a)
+		}
+		sleepUntil(9800) // the cycles that started at 0..240 ms end at 6.0-6.3 s; 3.5 s of slack
+	} else {
 	d.h.StartHunt(a1)
 	sleepUntil(100)
 	d.h.StartHunt(a2)
@@ -84,6 +102,7 @@ func (d *arpDriver) realtime(variant int) {
 	sleepUntil(14000)
 	d.h.StartHunt(a1)
 	sleepUntil(16000) // 4 s and 2 s after the last ticks of the two generations: no loop is between check and act
+	}
 	c.mu.Lock()
 	d.tw.line(map[string]interface{}{"a": "rt.close", "stuck": []int{}, "frames": []vh.ArpFrame{}, "t": time.Since(t0).Milliseconds()})
 	c.mu.Unlock()
